@@ -550,14 +550,22 @@ pub fn main(args: &Args) {
         }
         // (c) client against scripted servers on port 80 of per-shard loopback addresses
         if want("c") {
-            let hosts: Vec<String> = (0..2).map(|i| format!("127.77.{}.{}", pid % 250 + 1, shard * 2 + i + 1)).collect();
-            let servers: Vec<ScriptedServer> = match hosts.iter().map(|h| ScriptedServer::start(&format!("{}:80", h))).collect::<Result<Vec<_>, _>>() {
+            let mut hosts: Vec<String> = (0..2).map(|i| format!("127.77.{}.{}", pid % 250 + 1, shard * 2 + i + 1)).collect();
+            let mut servers: Vec<ScriptedServer> = match hosts.iter().map(|h| ScriptedServer::start(&format!("{}:80", h))).collect::<Result<Vec<_>, _>>() {
                 Ok(s) => s,
                 Err(e) => {
                     r.harness_error(format!("cannot bind scripted servers on {:?}:80: {}", hosts, e));
                     return r;
                 }
             };
+            // one shard also has an origin that is addressed by an IPv6 literal (there is only one IPv6 loopback address)
+            if shard == 0 {
+                if let Ok(s6) = ScriptedServer::start("[::1]:80") {
+                    hosts.push("[::1]".into());
+                    servers.push(s6);
+                    r.count("ipv6_literal_origin", 1);
+                }
+            }
             for case in 0..nc {
                 if !mine(case) {
                     continue;
@@ -571,7 +579,7 @@ pub fn main(args: &Args) {
     let total = Report::merge_all(reports);
     total.write(
         out,
-        "(a) responses built through the public API over all 39 status codes, 0..40 headers (repeated names, Set-Cookie over all attribute combinations), bodies 0..20 KiB (64 KiB thorough): serialised bytes judged by the strict reference reader and parsed back; (b) reference-generated server messages over every status code, Content-Length / chunked (all compositions of bodies <= 6 B x 3 hex spellings exhaustively, random chunkings above) / header-only, parsed under whole, bytewise, every split point (<= 400-512 B) or 12 random, 3 multi-split plans; (c) Client::get/post/put/delete against scripted loopback servers on port 80 incl. redirect chains 0..5 over {301,302,307} with relative and absolute Location. distinct = distinct messages / exchange descriptions; every counted case has a start line, fields and framing to get right",
+        "(a) responses built through the public API over all 39 status codes, 0..40 headers (repeated names, Set-Cookie over all attribute combinations), bodies 0..20 KiB (64 KiB thorough): serialised bytes judged by the strict reference reader and parsed back; (b) reference-generated server messages over every status code, Content-Length / chunked (all compositions of bodies <= 6 B x 3 hex spellings exhaustively, random chunkings above) / header-only, parsed under whole, bytewise, every split point (<= 400-512 B) or 12 random, 3 multi-split plans; (c) Client::get/post/put/delete against scripted loopback servers on port 80 (one shard also with an origin addressed as http://[::1]/, one exchange in six with origins that keep the connection open, one chain in four with redirect following off) incl. redirect chains 0..5 over {301,302,307} with relative and absolute Location. distinct = distinct messages / exchange descriptions; every counted case has a start line, fields and framing to get right",
         None,
         &["reference reader hvcommon::httpref; reason phrases: RFC 9110 names and their RFC 2616/7231 predecessors are both accepted", "TCP segmentation towards the client is best effort (Nagle off, gaps); exact read plans are exercised in-process in part (b)", "chunk extensions and trailers are not generated (excluded by the property)"],
     );
